@@ -50,6 +50,8 @@ RDF_EXT = {"xml": ".rdf", "pretty-xml": ".rdf", "nt": ".nt", "n3": ".n3", "turtl
            "json-ld": ".jsonld"}
 BACKENDS = [("xml", {}), ("xml", {"local_style": True}),
             ("xml", {"custom_template": "<xsl:template match=\"odML\"><p>x</p></xsl:template>"}),
+            ("xml", {"local_style": True,
+                     "custom_template": "<xsl:template match=\"odML\"><p>y</p></xsl:template>"}),
             ("json", {}), ("yaml", {})] + [("rdf", {"rdf_format": f}) for f in RDF_FORMATS]
 DEFECTS = ["none", "warn", "type", "dupid", "dupname",
            # the same three ways of being invalid, planted deep and across branches
@@ -92,7 +94,7 @@ def grid(tier):
                         cases.append({"format": 1, "engine": "savegrid", "property": PROPERTY,
                                       "run_seed": seeds.H("c07grid", jdump(cell)),
                                       "steps": [cell]})
-                        if defect == "warn" and fail == "none":
+                        if defect in ("warn", "none") and fail == "none":
                             cell = dict(cell, wfilter="error")
                             cases.append({"format": 1, "engine": "savegrid", "property": PROPERTY,
                                           "run_seed": seeds.H("c07grid", jdump(cell)),
@@ -183,6 +185,15 @@ def build_doc(odml, defect, fail, variant=0):
     elif defect == "dupname_prop":
         src = rng.choice(props)
         list.append(src.parent.properties, odml.Property(name=src.name, values=[3]))
+    if variant % 3 == 1 and len(secs) >= 2:
+        # an unresolved link, the state of a document right after loading: writers that resolve
+        # references before serialising (RDF) must still write a valid document
+        tgt = rng.choice(secs)
+        others = [s for s in secs if s is not tgt and not any(a is tgt for a in _ancestors(s, doc))
+                  and not any(a is s for a in _ancestors(tgt, doc))]
+        if others:
+            par = rng.choice(others)
+            par.append(odml.Section(name="linker", type="t", link=tgt.get_path()))
     host = rng.choice(secs)
     if fail == "ctrl_name":
         odml.Property(name="bad\x00name", values=1, parent=host)
@@ -350,6 +361,10 @@ def run_case(case):
                             not any(c == "UserWarning" for c, _ in wrn):
                         vio = ("save.warns-and-writes", "warnings-only document was saved without "
                                "a UserWarning")
+                    if vio is None and validating:
+                        msg = written_is_valid(odml, doc)
+                        if msg:
+                            vio = ("save.refuses-invalid", msg)
                     for p in may_write:
                         good[p] = True
             if vio:
@@ -361,6 +376,18 @@ def run_case(case):
                                                         [l for l in labels if not l.startswith("pre:")])}
                 break
     return res
+
+
+def written_is_valid(odml, doc):
+    """'A document with a validation error is never written': a writer may change the document
+    between validating and serialising it (the RDF writer resolves links first); what it has
+    serialised is the document as it stands when the call returns, and that must be valid.
+    (Loading the file back instead would judge round-trip fidelity, which is C01/C02/C10's.)"""
+    from odml.validation import Validation
+    errs = [e for e in Validation(doc).errors if e.is_error]
+    if errs:
+        return "the document as it was serialised has validation errors: %s" % str(errs[0].msg)[:140]
+    return None
 
 
 def explore(run_seed, tier, known=None):
